@@ -71,11 +71,21 @@ fn gen_path(rng: &mut Rng) -> Path {
     let mut ops = Vec::new();
     let pt = |rng: &mut Rng| Point::new(coord(rng), coord(rng));
     let mut last: Option<Point> = None;
+    // points that MoveTo went to so far: a later subpath may start exactly where an earlier one started
+    // (spokes from one centre) or where the path is right now
+    let mut starts: Vec<Point> = Vec::new();
     for _ in 0..n {
         let k = rng.below(12);
         match k {
             0 | 1 => {
-                let p = pt(rng);
+                let p = if !starts.is_empty() && rng.chance(0.25) {
+                    *rng.pick(&starts[..])
+                } else if last.is_some() && rng.chance(0.1) {
+                    last.unwrap()
+                } else {
+                    pt(rng)
+                };
+                starts.push(p);
                 ops.push(PathOp::MoveTo(p));
                 last = Some(p);
             }
@@ -125,6 +135,12 @@ fn gen_path(rng: &mut Rng) -> Path {
 }
 
 pub fn check_flatten(path: &Path, tol: f32, st: &mut Stats) -> Option<String> {
+    check_flatten_with(path, tol, st, 1e-4, 1.)
+}
+
+/// `slack` x the largest coordinate is allowed on top of the tolerance for the f32 evaluation of the curve
+/// (`base` is added to that coordinate: 1 for ordinary paths, 0 for microscopic ones)
+pub fn check_flatten_with(path: &Path, tol: f32, st: &mut Stats, slack: f64, base: f64) -> Option<String> {
     let flat = path.flatten(tol);
     let tolf = tol as f64;
     let mut cur: Option<P> = None;
@@ -209,7 +225,7 @@ pub fn check_flatten(path: &Path, tol: f32, st: &mut Stats) -> Option<String> {
                     _ => unreachable!(),
                 };
                 // f32 evaluation error of the curve grows with the magnitude of its control points
-                let scale = 1. + ctrl_pts.iter().map(|p| p.x.abs().max(p.y.abs())).fold(0., f64::max);
+                let scale = base + ctrl_pts.iter().map(|p| p.x.abs().max(p.y.abs())).fold(0., f64::max);
                 let mut prev_t = -1e-9;
                 let stride = (verts.len() / 48).max(1);
                 for (vi, v) in verts.iter().enumerate() {
@@ -218,7 +234,7 @@ pub fn check_flatten(path: &Path, tol: f32, st: &mut Stats) -> Option<String> {
                     }
                     let cands = curve.closest_candidates(pt(v));
                     st.add("curve_vertices_checked", 1);
-                    let lim = tolf + 1e-4 * scale;
+                    let lim = tolf + slack * scale;
                     let on: Vec<&(f64, f64)> = cands.iter().filter(|c| c.0 <= lim).collect();
                     if on.is_empty() {
                         let best = cands.iter().cloned().fold((f64::INFINITY, 0.), |a, b| if b.0 < a.0 { b } else { a });
@@ -246,7 +262,7 @@ pub fn check_flatten(path: &Path, tol: f32, st: &mut Stats) -> Option<String> {
                     worst = worst.max(d);
                 }
                 st.max("max_deviation_over_tolerance", worst / tolf);
-                if worst > 8. * tolf + 1e-4 * scale {
+                if worst > 8. * tolf + slack * scale {
                     return Some(format!("the polyline of curve #{} (starting at the true start {:?}) deviates {:.5} from the curve, more than 8 x tolerance {}", ii, a, worst, tol));
                 }
                 st.add("curves_checked", 1);
@@ -289,6 +305,9 @@ pub fn run(ctx: &Ctx) -> Outcome {
         let h = rng.int(8, 40) as i32;
         // paths on the surface
         let mut path = gen_path(&mut rng);
+        // now and then the control points stay where they were generated (up to thousands of pixels away): fast
+        // curves whose edges the rasteriser subdivides to its limit
+        let far_controls = rng.chance(0.06);
         for op in path.ops.iter_mut() {
             let f = |p: &mut Point| {
                 p.x = p.x.rem_euclid(w as f32 + 8.) - 4.;
@@ -297,12 +316,26 @@ pub fn run(ctx: &Ctx) -> Outcome {
             match op {
                 PathOp::MoveTo(p) | PathOp::LineTo(p) => f(p),
                 PathOp::QuadTo(c, p) => {
-                    f(c);
+                    if !far_controls {
+                        f(c);
+                    } else {
+                        let far = |rng: &mut Rng| rng.range(2200., 3900.) as f32 * if rng.chance(0.5) { -1. } else { 1. };
+                        match rng.below(3) {
+                            0 => c.x = far(&mut rng),
+                            1 => c.y = far(&mut rng),
+                            _ => {
+                                c.x = far(&mut rng);
+                                c.y = far(&mut rng);
+                            }
+                        }
+                    }
                     f(p)
                 }
                 PathOp::CubicTo(a, b, p) => {
-                    f(a);
-                    f(b);
+                    if !far_controls {
+                        f(a);
+                        f(b);
+                    }
                     f(p)
                 }
                 PathOp::Close => {}
@@ -316,7 +349,7 @@ pub fn run(ctx: &Ctx) -> Outcome {
             dt.into_vec()
         };
         let (a, b) = (render(&path), render(&flat));
-        let subs = subpaths(&path, 128);
+        let subs = subpaths(&path, if far_controls { 2048 } else { 128 });
         let mut co = CaseOut::default();
         co.hash = crate::prng::hash_str(&format!("{:?}{:?}", (w, h), path));
         let mut asserted = 0;
@@ -348,6 +381,31 @@ pub fn run(ctx: &Ctx) -> Outcome {
             let mut d = J::obj();
             d.set("surface", J::s(&format!("{}x{}", w, h)));
             d.set("path", J::s(&path_str(&path)));
+            co.desc = Some(d);
+        }
+        co
+    });
+    // tiny geometry at tiny tolerances (what stroking under a magnification of a million asks of flatten):
+    // the deviation bound is relative to the tolerance, whatever its size
+    run_cases(ctx, &mut out, SubSpec { name: "tiny_geometry_at_tiny_tolerances", cases: ctx.n(1_500, 40_000), exhaustive: false, max_secs: 60. }, |i, want, st| {
+        let mut rng = ctx.rng("tiny_geometry_at_tiny_tolerances", i);
+        // the usual paths, shrunk: coordinates up to 4000 become a few thousandths of a unit, where f32 resolves 1e-10
+        let unit = *rng.pick(&[5e-7f32, 2e-7, 1e-7]);
+        let base = gen_path(&mut rng);
+        let path = base.transform(&Transform::scale(unit, unit));
+        let tol = *rng.pick(&[1e-8f32, 2e-8, 5e-8, 1e-7, 1.2e-7, 3e-7, 1e-6]);
+        let mut co = CaseOut::default();
+        co.hash = crate::prng::hash_str(&format!("{:?}{}", path, tol));
+        co.nontrivial = path.ops.iter().any(|o| matches!(o, PathOp::QuadTo(..) | PathOp::CubicTo(..)));
+        st.add(&format!("tolerance:{:e}", tol), 1);
+        // (geometry of a few thousandths of a unit: the f32 evaluation of the curve is good to 1e-9 there)
+        if let Some(v) = check_flatten_with(&path, tol, st, 1e-6, 0.) {
+            co.viol("C16", v);
+        }
+        if want || !co.violations.is_empty() {
+            let mut d = J::obj();
+            d.set("path", J::s(&path_str(&path)));
+            d.set("tolerance", J::s(&format!("{:e}", tol)));
             co.desc = Some(d);
         }
         co
